@@ -507,48 +507,103 @@ func large(sub []int) bool {
 	return zz && a200
 }
 
-func cellsSpace(e *harness.Env, tmp string) {
+// kindAssignments lists kind vectors of length k: "full" = all 8^k; "stride" = (base + i*stride) mod 8 for
+// every base and stride (64 vectors; every pair of kinds occurs on neighbouring cells); "rot" = stride 1 only.
+func kindAssignments(k int, mode string) [][]xlsxw.Kind {
 	kinds := xlsxw.Kinds
-	for _, sub := range subsets(len(addrs), 1, 3) {
-		k := len(sub)
+	n := len(kinds)
+	var out [][]xlsxw.Kind
+	seen := map[string]bool{}
+	add := func(v []xlsxw.Kind) {
+		key := fmt.Sprint(v)
+		if !seen[key] {
+			seen[key] = true
+			out = append(out, v)
+		}
+	}
+	switch mode {
+	case "full":
 		total := 1
 		for i := 0; i < k; i++ {
-			total *= len(kinds)
-		}
-		orders := []string{"in", "rev"}
-		if e.Thorough() && !large(sub) {
-			orders = allOrders
-		}
-		rotating := !e.Thorough() && large(sub)
-		if rotating {
-			total = len(kinds)
+			total *= n
 		}
 		for tv := 0; tv < total; tv++ {
-			cells := make([]lcell, k)
+			v := make([]xlsxw.Kind, k)
 			x := tv
-			for i := range cells {
-				if rotating {
-					cells[i] = mk(0, addrs[sub[i]], rotKinds(tv, i))
-					continue
-				}
-				cells[i] = mk(0, addrs[sub[i]], kinds[x%len(kinds)])
-				x /= len(kinds)
+			for i := range v {
+				v[i] = kinds[x%n]
+				x /= n
 			}
-			seen := map[string]bool{}
-			for _, ord := range orders {
-				oc := ordered(cells, ord)
-				key := writeKey(oc)
-				if seen[key] {
-					continue
+			add(v)
+		}
+	case "stride", "rot":
+		strides := []int{1}
+		if mode == "stride" {
+			strides = []int{1, 0, 2, 3, 4, 5, 6, 7}
+		}
+		for _, st := range strides {
+			for base := 0; base < n; base++ {
+				v := make([]xlsxw.Kind, k)
+				for i := range v {
+					v[i] = kinds[(base+i*st)%n]
 				}
-				seen[key] = true
-				sheets := []lsheet{{name: "S1", cells: oc}}
-				trivial := k == 1 && sub[0] == 0 && cells[0].kind == xlsxw.Shared
-				runCase(e, tmp, caseSpec{desc: baseDesc("cells", sheets, ord, wbopts{}), sheets: sheets,
-					nontrivial: !trivial, outcome: fmt.Sprintf("cells%d", k)})
+				add(v)
 			}
 		}
 	}
+	return out
+}
+
+func cellsSpace(e *harness.Env, tmp string) {
+	type plan struct {
+		mode   string
+		orders []string
+	}
+	for _, sub := range subsets(len(addrs), 1, 3) {
+		k := len(sub)
+		var plans []plan
+		switch {
+		case e.Thorough() && !large(sub):
+			plans = []plan{{"full", allOrders}}
+		case e.Thorough():
+			plans = []plan{{"full", []string{"in"}}, {"stride", []string{"rev"}}}
+		case large(sub):
+			plans = []plan{{"rot", []string{"in", "rev"}}}
+		case k == 3:
+			plans = []plan{{"stride", []string{"in", "rev"}}}
+		default:
+			plans = []plan{{"full", []string{"in", "rev"}}}
+		}
+		for _, pl := range plans {
+			for _, kv := range kindAssignments(k, pl.mode) {
+				cells := make([]lcell, k)
+				for i := range cells {
+					cells[i] = mk(0, addrs[sub[i]], kv[i])
+				}
+				seen := map[string]bool{}
+				for _, ord := range pl.orders {
+					oc := ordered(cells, ord)
+					key := writeKey(oc)
+					if seen[key] {
+						continue
+					}
+					seen[key] = true
+					sheets := []lsheet{{name: "S1", cells: oc}}
+					trivial := k == 1 && sub[0] == 0 && cells[0].kind == xlsxw.Shared
+					runCase(e, tmp, caseSpec{desc: baseDesc("cells", sheets, ord, wbopts{}), sheets: sheets,
+						nontrivial: !trivial, outcome: fmt.Sprintf("cells%d", k)})
+				}
+			}
+		}
+	}
+}
+
+// bases: the rotating kind assignments used by the secondary spaces (all 8 in the thorough tier).
+func bases(e *harness.Env, quick []int) []int {
+	if e.Thorough() {
+		return []int{0, 1, 2, 3, 4, 5, 6, 7}
+	}
+	return quick
 }
 
 // ---- (merge) -------------------------------------------------------------------------------------------
@@ -563,7 +618,7 @@ func mergeSpace(e *harness.Env, tmp string) {
 				continue
 			}
 			for _, extra := range []bool{false, true} {
-				for base := 0; base < len(xlsxw.Kinds); base++ {
+				for _, base := range bases(e, []int{0, 2, 4, 6}) {
 					if base > 0 && len(sub) == 0 && !extra {
 						continue
 					}
@@ -633,7 +688,7 @@ func sheetsSpace(e *harness.Env, tmp string) {
 	}{{"std", wbopts{}}, {"swapped-parts", wbopts{swapParts: true}}, {"abs-targets", wbopts{abs: true}}, {"relids", wbopts{relIDs: true, swapParts: true}}}
 	for _, s1 := range subs {
 		for _, s2 := range subs {
-			for base := 0; base < len(xlsxw.Kinds); base++ {
+			for _, base := range bases(e, []int{0, 3, 6}) {
 				if base > 0 && len(s1)+len(s2) == 0 {
 					continue
 				}
@@ -666,6 +721,9 @@ func sstSpace(e *harness.Env, tmp string) {
 		}
 		k := len(sub)
 		for tv := 0; tv < 1<<k; tv++ {
+			if !e.Thorough() && k == 3 && tv != 0 && tv != 7 && tv != 2 && tv != 5 {
+				continue // quick: all-plain, all-rich and the two alternating patterns
+			}
 			cells := make([]lcell, k)
 			for i := range cells {
 				kd := xlsxw.Shared
@@ -711,7 +769,7 @@ func variantSpace(e *harness.Env, tmp string) {
 		if large(sub) && !e.Thorough() {
 			continue
 		}
-		for base := 0; base < len(xlsxw.Kinds); base++ {
+		for _, base := range bases(e, []int{0, 2, 4, 6}) {
 			var cells []lcell
 			for i, ai := range sub {
 				cells = append(cells, mk(0, addrs[ai], rotKinds(base, i)))
